@@ -105,13 +105,13 @@ def gen_history(r, maxops, thorough):
                 shape = r.choice("vn")      # one array: a signature holds at most 255 characters
             else:
                 n = r.choice([1, 1, 1, 2, 2, 3, 3, 4, 5])
-                shape = r.choice("sttvmnpqqgo")
+                shape = r.choice("sttvmnpqqgowz")
             items = gen_items(r, sim, n, fail)
             if not items:
                 continue
             n = len(items)
-            if shape == "s" and n != 1:
-                shape = "v"
+            if shape in "sw" and n != 1:
+                shape = "v" if shape == "s" else "z"
             if shape == "t" and n > 3:
                 shape = "n"
             if shape == "q" and not (2 <= n <= 5):
@@ -781,7 +781,7 @@ def trace_summary_model(mod):
 def setup(ctx):
     ctx.rule = ("a case = one history: <= 25 generated operations (plus, in half of the cases, a tail that receives and drops everything) over "
                 "caller descriptors (fresh pipes / unlinked files), UnixFd variables, <= 3 built bodies plus received ones, one connection: "
-                "open, caller-close, UnixFd::new, push (single / tuple / Vec / HashMap / Vec of tuples / push_params / push_param2..5 / "
+                "open, caller-close, UnixFd::new, push (single / tuple / Vec / HashMap / Vec of tuples / push_params / push_param2..5 / push_variant / Vec of variants / "
                 "with a 300 kB byte array / old Param API; elements UnixFd, &dyn AsRawFd, or one that fails, at any position; 25% of pushes "
                 "fail), reset, drop, send (library -> raw peer socket), inject (raw peer crafts a message with chosen indices), receive "
                 "(raw peer -> library), read_unixfd with in-range / out-of-range indices, parse a stored slot, clone, dup, take, drop; 7% of "
